@@ -160,7 +160,12 @@ def norm_cfg(v):
     return v
 
 
-def cut_scope_grammar(rng):
+CUT_WRAPS = ['group', 'opt', 'rep', 'named', 'skipgroup', 'posrep', 'posjoin', 'plain-group', 'named-plain-group',
+             'look-cut', 'neglook-cut', 'skipto-cut', 'cut-then-nested', 'rep-cut-neglook', 'posrep-cut-neglook', 'join-cut-neglook',
+             'rep-cut-rulefail', 'whole-option-choice']
+
+
+def cut_scope_grammar(rng, wrap=None):
     """an outer choice whose alternatives share first tokens; the earlier alternative holds an inner construct (group, optional, closure,
     nested choice) with cuts in its options - the last one included - and then fails, so whether the cut stays inside decides the parse"""
     toks = ['a', 'b', 'c']
@@ -175,9 +180,8 @@ def cut_scope_grammar(rng):
         return ('tok', t)
     n = rng.randint(2, 3)
     inner = ('choice', [option(i == n - 1) for i in range(n)])
-    wrap = rng.choice(['group', 'group', 'opt', 'rep', 'named', 'skipgroup', 'posrep', 'posjoin', 'plain-group', 'named-plain-group',
-                       'look-cut', 'neglook-cut', 'skipto-cut', 'cut-then-nested', 'rep-cut-neglook', 'posrep-cut-neglook', 'join-cut-neglook',
-                       'rep-cut-rulefail', 'whole-option-choice', 'whole-option-choice'])
+    drawn = rng.choice(CUT_WRAPS + ['group', 'whole-option-choice'])      # always drawn, so that the stream does not depend on the caller
+    wrap = wrap or drawn
     t1, t2 = rng.choice(toks), rng.choice(toks)
     cutseq = rng.choice([('seq', [('tok', t1), 'cut', ('tok', t2)]), ('seq', [('tok', t1), 'cut']), ('seq', [('group', ('seq', [('tok', t1), 'cut'])), ('tok', t2)])])
     inner_e = {'group': ('group', inner), 'opt': ('opt', inner), 'rep': ('rep', False, None, False, inner),
